@@ -48,7 +48,9 @@ One == <<1, 0>>
 T(act, afc, q, p, c, cur, r, ccur, rc, sflc, sflv, force, splitc, post, pre, intOnly) ==
   [act |-> act, afc |-> afc, q |-> q, p |-> p, c |-> c, cur |-> cur, r |-> r, ccur |-> ccur, rc |-> rc,
    sflc |-> sflc, sflv |-> sflv, force |-> force, splitc |-> splitc, post |-> post, pre |-> pre,
-   intOnly |-> intOnly]
+   intOnly |-> intOnly, tdoff |-> 0]
+\* the same row traded k days before it settles
+Traded(t, k) == [t EXCEPT !.tdoff = k]
 TBuy(afc, q, p, c)            == T("Buy", afc, q, p, c, "", One, "", One, "", Z, FALSE, "", One, One, FALSE)
 TSell(afc, q, p, c)           == T("Sell", afc, q, p, c, "", One, "", One, "", Z, FALSE, "", One, One, FALSE)
 TBuyFx(afc, q, p, c, cur, r, ccur, rc)  == T("Buy", afc, q, p, c, cur, r, ccur, rc, "", Z, FALSE, "", One, One, FALSE)
@@ -65,7 +67,7 @@ MkRow(h, idx) ==
   LET t == h.t
       glob == t.act = "Split" /\ t.afc = "*"
       rate == IF t.cur \in {"", "CAD"} THEN ROne ELSE P(t.r)
-  IN  [act |-> NormAct(t.act), af |-> IF glob THEN GlobalAf ELSE AfId(t.afc), sd |-> h.sd, td |-> h.sd, idx |-> idx,
+  IN  [act |-> NormAct(t.act), af |-> IF glob THEN GlobalAf ELSE AfId(t.afc), sd |-> h.sd, td |-> h.sd - t.tdoff, idx |-> idx,
        q |-> P(t.q), p |-> P(t.p), c |-> P(t.c), r |-> rate,
        rc |-> IF t.ccur = "" THEN rate ELSE IF t.ccur = "CAD" THEN ROne ELSE P(t.rc),
        hasSfl |-> t.sflc # "", sflv |-> P(t.sflv), force |-> t.force,
@@ -243,7 +245,7 @@ InvSplitNeutral ==
 (***************************************************************************)
 CaseRow(h) ==
   LET t == h.t IN
-  [sec |-> "FOO", td |-> h.sd, sd |-> h.sd, act |-> t.act, af |-> IF t.afc = "*" THEN "" ELSE t.afc,
+  [sec |-> "FOO", td |-> h.sd - t.tdoff, sd |-> h.sd, act |-> t.act, af |-> IF t.afc = "*" THEN "" ELSE t.afc,
    q |-> IF t.act \in {"RoC", "Split"} THEN "" ELSE t.q, p |-> IF t.act = "Split" THEN "" ELSE t.p,
    c |-> IF t.act \in {"Buy", "Sell"} THEN t.c ELSE "",
    cur |-> t.cur, r |-> IF t.cur \in {"", "CAD"} THEN "" ELSE t.r,
